@@ -60,7 +60,8 @@ theorem minNext_set_mono {subs : List ASub} {i : Nat} {old new : ASub} (hi : sub
 structure MbInv (sp : MBSpec) (a : AMB) : Prop where
   subsLen : a.subs.length = sp.drive.length
   back : a.nSent ≤ minNext a.subs + sp.cap
-  sub : ∀ (i : Nat) (sb : ASub), a.subs[i]? = some sb → sb.next ≤ a.nSent ∧ sb.buffered ≤ sp.cap - 1
+  sub : ∀ (i : Nat) (sb : ASub), a.subs[i]? = some sb → sb.next ≤ a.nSent ∧ sb.buffered ≤ sp.cap - 1 ∧
+    ∀ x, sb.waiting = some x → x = sb.next ∧ sb.buffered = 0
 
 theorem MbInv.backSub {sp : MBSpec} {a : AMB} (h : MbInv sp a) {i : Nat} {sb : ASub} (hs : a.subs[i]? = some sb) :
     a.nSent ≤ sb.next + sp.cap := by
@@ -68,18 +69,19 @@ theorem MbInv.backSub {sp : MBSpec} {a : AMB} (h : MbInv sp a) {i : Nat} {sb : A
 
 /-- a subscriber is replaced by one that has not gone backwards -/
 theorem MbInv.modSub {sp : MBSpec} {a : AMB} (h : MbInv sp a) (k : Nat) (f : ASub → ASub)
-    (hf : ∀ sb, a.subs[k]? = some sb → sb.next ≤ (f sb).next ∧ (f sb).next ≤ a.nSent ∧ (f sb).buffered ≤ sp.cap - 1) :
+    (hf : ∀ sb, a.subs[k]? = some sb → sb.next ≤ (f sb).next ∧ (f sb).next ≤ a.nSent ∧ (f sb).buffered ≤ sp.cap - 1 ∧
+      ∀ x, (f sb).waiting = some x → x = (f sb).next ∧ (f sb).buffered = 0) :
     MbInv sp (a.modSub k f) := by
   unfold AMB.modSub
   split
   · rename_i sb hk
-    obtain ⟨h1, h2, h3⟩ := hf sb hk
+    obtain ⟨h1, h2, h3, h4⟩ := hf sb hk
     refine ⟨by simp [h.subsLen], Nat.le_trans h.back (Nat.add_le_add_right (minNext_set_mono hk h1) _), ?_⟩
     intro i x hx
     simp only [List.getElem?_set] at hx
     split at hx
     · split at hx
-      · cases hx; exact ⟨h2, h3⟩
+      · cases hx; exact ⟨h2, h3, h4⟩
       · cases hx
     · exact h.sub i x hx
   · exact h
@@ -88,7 +90,7 @@ theorem MbInv.sent {sp : MBSpec} {a : AMB} (h : MbInv sp a) (hl : a.heapLen < sp
     MbInv sp { a with nSent := a.nSent + 1, closed := c } := by
   refine ⟨h.subsLen, ?_, ?_⟩
   · have := h.back; simp only [AMB.heapLen] at hl; simp only; omega
-  · intro i sb hs; have := h.sub i sb hs; simp only; omega
+  · intro i sb hs; have := h.sub i sb hs; exact ⟨by simp only; omega, this.2.1, this.2.2⟩
 
 theorem MbInv.kill {sp : MBSpec} {a : AMB} (h : MbInv sp a) (r : Exc) : MbInv sp (a.kill r) := by
   unfold AMB.kill; split
@@ -442,29 +444,35 @@ theorem Base.step {net : Net} {s s' : NState} {t : Nat} (hb : Base net s) (h : s
     apply hi.modSub
     intro x hx; rw [hs] at hx; cases hx
     have := hi.sub k sb hs
-    exact ⟨Nat.le_refl _, this.1, by simp only; omega⟩
+    refine ⟨Nat.le_refl _, this.1, by simp only; omega, ?_⟩
+    intro x hx
+    have := (this.2.2 x hx).2
+    omega
   | readKilled m k a sb ha hs _ _ =>
     refine both _ m a _ (TMove.raise _ _) ha ?_
     intro sp _ hi
     apply hi.modSub
     intro x hx; rw [hs] at hx; cases hx
     have := hi.sub k sb hs
-    exact ⟨Nat.le_refl _, this.1, this.2⟩
+    exact ⟨Nat.le_refl _, this.1, this.2.1, by intro x hx; cases hx⟩
   | readTake m k a sb ha hs _ _ hlt =>
     refine both _ m a _ (tmove_adv ts) ha ?_
     intro sp _ hi
     apply hi.modSub
     intro x hx; rw [hs] at hx; cases hx
     have := hi.backSub hs
-    exact ⟨by simp only; omega, Nat.le_refl _, by simp only; omega⟩
-  | readWait m k a sb ha hs _ _ _ _ =>
+    exact ⟨by simp only; omega, Nat.le_refl _, by simp only; omega, by intro x hx; cases hx⟩
+  | readWait m k a sb ha hs hb0 _ _ _ =>
     refine hb.frame (frame_mb s t m _ a ha) (by intro x hx; cases hx) ?_
     intro m0 a0 a1 he sp hsp
     simp only [Option.some.injEq, Prod.mk.injEq] at he; obtain ⟨rfl, rfl, rfl⟩ := he
     apply (hb.mb _ sp _ hsp ha).modSub
     intro x hx; rw [hs] at hx; cases hx
     have := (hb.mb _ sp _ hsp ha).sub k sb hs
-    exact ⟨Nat.le_refl _, this.1, this.2⟩
+    refine ⟨Nat.le_refl _, this.1, this.2.1, ?_⟩
+    intro x hx
+    simp only [Option.some.injEq] at hx
+    exact ⟨hx.symm, hb0⟩
   | sendOk m sp a hsp ha _ _ hl =>
     refine both _ m a _ (tmove_adv ts) ha ?_
     intro sp' hsp' hi
@@ -964,5 +972,306 @@ theorem delivered_frozen {net : Net} {c mk sk : Nat} (hs : soleReader net c mk s
       have step1 : delivered s1 mk sk = delivered s mk sk := by
         simp only [delivered, hak1, hsb1, hak0, hsb0, e1, e2]
       rw [ih (h.step hst) (fun u hu => hσ u (by simp [hu])) hr ⟨_, _, hak1, hsb1⟩, step1]
+
+/-! ## the lazy fetch gate, any net -/
+
+structure SenderOkP (net : Net) (t m : Nat) (th : Thread) : Prop where
+  thr : net.threads[t]? = some th
+  start : armed m th.body = false
+  gate : ∀ pre r, th.body = pre ++ (.gate m :: r) → armed m r = true
+  out : ∀ pre i r, th.body = pre ++ (i :: r) → (i = .send m ∨ i = .close m) → armed m r = false
+  other : ∀ u tu, u ≠ t → net.threads[u]? = some tu → cntOut m tu.body = 0 ∧ cntOut m tu.epi = 0
+
+theorem senderOk_spec {net : Net} {t m : Nat} (h : senderOk net t m = true) : ∃ th, SenderOkP net t m th := by
+  unfold senderOk at h
+  split at h
+  · simp at h
+  · rename_i th hth
+    simp only [Bool.and_eq_true, Bool.not_eq_true', List.all_eq_true, Bool.or_eq_true, beq_iff_eq, List.mem_range,
+      decide_eq_true_eq] at h
+    obtain ⟨⟨hst, htl⟩, hoth⟩ := h
+    refine ⟨th, hth, hst, ?_, ?_, ?_⟩
+    · intro pre r hb
+      have := htl (.gate m :: r) (by rw [hb]; exact mem_tails_of_append pre _)
+      simp only [Bool.and_eq_true, Bool.or_eq_true, Bool.not_eq_true', beq_iff_eq] at this
+      rcases this.1 with h0 | h0
+      · simp at h0
+      · exact h0
+    · intro pre i r hb hi
+      have := htl (i :: r) (by rw [hb]; exact mem_tails_of_append pre _)
+      simp only [Bool.and_eq_true, Bool.or_eq_true, Bool.not_eq_true', beq_iff_eq, Bool.or_eq_false_iff] at this
+      rcases this.2 with h0 | h0
+      · rcases hi with rfl | rfl <;> simp at h0
+      · exact h0
+    · intro u tu hu htu
+      have hlt : u < net.threads.length := (List.getElem?_eq_some_iff.mp htu).1
+      rcases hoth u hlt with h0 | h0
+      · exact absurd h0 hu
+      · simpa [htu] using h0
+
+/-- the gate invariant: an armed sender (past its gate, message not sent yet) of a mailbox that is not killed has a
+driving subscriber that waits for exactly the message that comes next -/
+def GateInv (net : Net) (s : NState) (t m : Nat) : Prop :=
+  ∀ (ts : TSt) (sp : MBSpec) (a : AMB), s.thr[t]? = some ts → net.mbs[m]? = some sp → s.mbs[m]? = some a →
+    ts.inEpi = false → armed m ts.prog = true → a.killed = false →
+    ∃ (i : Nat) (sb : ASub), sp.drive[i]? = some true ∧ a.subs[i]? = some sb ∧ sb.waiting = some sb.next ∧ sb.next = a.nSent
+
+theorem armed_cons (m : Nat) (i : Instr) (r : List Instr) :
+    armed m (i :: r) = if outRel m i then (i == .send m || i == .close m) else armed m r := by
+  by_cases h : outRel m i = true
+  · simp only [armed, nextOut, h, if_true]
+    simp only [outRel, Bool.or_eq_true, beq_iff_eq] at h
+    rcases h with (rfl | rfl) | rfl <;> simp
+  · simp only [armed, nextOut, h, if_false]; simp
+
+/-- `canFetch` of a mailbox that is not killed: some driving subscriber waits at the top -/
+theorem canFetch_top {sp : MBSpec} {a : AMB} (hi : MbInv sp a) (hk : a.killed = false) (hc : canFetch sp a = true) :
+    ∃ (i : Nat) (sb : ASub), sp.drive[i]? = some true ∧ a.subs[i]? = some sb ∧ sb.waiting = some sb.next ∧ sb.next = a.nSent := by
+  simp only [canFetch, hk, Bool.false_eq_true, if_false] at hc
+  split at hc
+  · simp at hc
+  · rename_i hst
+    simp only [List.any_eq_true, Bool.and_eq_true] at hc
+    obtain ⟨⟨sb, d⟩, hmem, hd, hw⟩ := hc
+    obtain ⟨i, hi1⟩ := List.mem_iff_getElem?.mp hmem
+    rw [List.getElem?_zip_eq_some] at hi1
+    obtain ⟨hsb, hdr⟩ := hi1
+    simp only at hd
+    subst hd
+    obtain ⟨x, hx⟩ := Option.isSome_iff_exists.mp hw
+    obtain ⟨h1, _, h3⟩ := hi.sub i sb hsb
+    obtain ⟨hx1, _⟩ := h3 x hx
+    subst hx1
+    refine ⟨i, sb, hdr, hsb, hx, ?_⟩
+    -- not stale: nobody waits for a number below nSent
+    have hns : ¬ sb.next < a.nSent := by
+      intro hlt
+      apply hst
+      simp only [List.any_eq_true]
+      exact ⟨sb, List.mem_of_getElem? hsb, by rw [hx]; exact decide_eq_true hlt⟩
+    omega
+
+/-- a step after which an armed sender was armed before, that leaves `n_sent` of `m` alone and does not touch a
+subscriber of `m` that waits at the top -/
+theorem GateInv.keep {net : Net} {s s' : NState} {u t m : Nat} {ots : Option TSt} {omb : Option (Nat × AMB × AMB)}
+    (hg : GateInv net s t m) (hf : Frame s s' u ots omb)
+    (hT : ∀ ts', s'.thr[t]? = some ts' → ∃ ts, s.thr[t]? = some ts ∧
+      (ts'.inEpi = false → armed m ts'.prog = true → ts.inEpi = false ∧ armed m ts.prog = true))
+    (hM : ∀ a a', omb = some (m, a, a') → a'.killed = false → a.killed = false ∧ a'.nSent = a.nSent ∧
+      ∀ (i : Nat) (sb : ASub), a.subs[i]? = some sb → sb.waiting = some sb.next → sb.next = a.nSent → a'.subs[i]? = some sb) :
+    GateInv net s' t m := by
+  intro ts' sp a' hts' hsp ha' hin harm hk
+  obtain ⟨ts, hts, himp⟩ := hT ts' hts'
+  obtain ⟨hin0, harm0⟩ := himp hin harm
+  rcases hf.mbLookup ha' with ⟨a, ho, ha⟩ | ⟨_, ha⟩
+  · obtain ⟨hk0, hns, hsub⟩ := hM a a' ho hk
+    obtain ⟨i, sb, hd, hsb, hw, hn⟩ := hg ts sp a hts hsp ha hin0 harm0 hk0
+    exact ⟨i, sb, hd, hsub i sb hsb hw hn, hw, by rw [hns]; exact hn⟩
+  · exact hg ts sp a' hts hsp ha hin0 harm0 hk
+
+theorem step_gate {net : Net} {s s' : NState} {u m : Nat} {ts : TSt} {rest : List Instr} {sp : MBSpec} {a : AMB}
+    (hts : s.thr[u]? = some ts) (hp : ts.prog = .gate m :: rest) (hsp : net.mbs[m]? = some sp) (ha : s.mbs[m]? = some a)
+    (h : step net s u = some s') : canFetch sp a = true ∧ s' = s.setThr u ts.advance := by
+  unfold step at h
+  simp only [hts, hp, hsp, ha] at h
+  split at h
+  · rename_i hc; simp only [Option.some.injEq] at h; exact ⟨hc, h.symm⟩
+  · simp at h
+
+theorem modSub_killed (a : AMB) (k : Nat) (f : ASub → ASub) : (a.modSub k f).killed = a.killed := (modSub_fields a k f).2.2.1
+theorem modSub_nSent (a : AMB) (k : Nat) (f : ASub → ASub) : (a.modSub k f).nSent = a.nSent := (modSub_fields a k f).1
+theorem kill_killed (a : AMB) (r : Exc) : (a.kill r).killed = true := by
+  unfold AMB.kill; split
+  · rename_i h; exact h
+  · rfl
+
+theorem GateInv.step {net : Net} {s s' : NState} {u t m : Nat} {th : Thread} (hb : Base net s) (hok : SenderOkP net t m th)
+    (hg : GateInv net s t m) (h : step net s u = some s') : GateInv net s' t m := by
+  obtain ⟨ts, i, rest, hts, hp, heff⟩ := step_cases h
+  -- the thread that moves, as a thread of the net
+  have hlt : u < net.threads.length := by rw [← hb.lenT]; exact (List.getElem?_eq_some_iff.mp hts).1
+  have htu : net.threads[u]? = some net.threads[u] := List.getElem?_eq_getElem hlt
+  obtain ⟨_, ⟨pp, hpp⟩⟩ := hb.suf u _ ts htu hts
+  -- only `t` sends into `m`
+  have notOut : (i = .send m ∨ i = .close m) → u = t := by
+    intro hi
+    have hcnt : 1 ≤ cntOut m ts.prog := by rw [hp, cntOut_cons]; simp [hi]
+    apply Classical.byContradiction
+    intro hut
+    obtain ⟨o1, o2⟩ := hok.other u _ hut htu
+    split at hpp
+    · have := cntOut_suffix (m := m) hpp; omega
+    · have := cntOut_suffix (m := m) hpp; omega
+  -- thread t in the new state when another thread moved / when t itself moved to `ts'`
+  have thrOther : u ≠ t → ∀ ts', s'.thr[t]? = some ts' → s'.thr.length = s.thr.length → (∀ v, v ≠ u → s'.thr[v]? = s.thr[v]?) →
+      ∃ ts0, s.thr[t]? = some ts0 ∧ (ts'.inEpi = false → armed m ts'.prog = true → ts0.inEpi = false ∧ armed m ts0.prog = true) := by
+    intro hut ts' hts' _ hsame
+    rw [hsame t (Ne.symm hut)] at hts'
+    exact ⟨ts', hts', fun a b => ⟨a, b⟩⟩
+  -- generic finish: the moving thread's new state `ts1`, the mailbox update described by `hM`
+  have gen : ∀ (ots : Option TSt) (omb : Option (Nat × AMB × AMB)), Frame s s' u ots omb →
+      (∀ ts1, ots = some ts1 → u = t → ts1.inEpi = true ∨ armed m ts1.prog = false ∨
+        (ts1.inEpi = ts.inEpi ∧ armed m ts1.prog = armed m ts.prog)) →
+      (∀ a a', omb = some (m, a, a') → a'.killed = false → a.killed = false ∧ a'.nSent = a.nSent ∧
+        ∀ (k : Nat) (sb : ASub), a.subs[k]? = some sb → sb.waiting = some sb.next → sb.next = a.nSent → a'.subs[k]? = some sb) →
+      GateInv net s' t m := by
+    intro ots omb hf hthr hM
+    apply hg.keep hf _ hM
+    intro ts' hts'
+    rcases hf.thrLookup hts' with ⟨hots, hut, _⟩ | ⟨_, hold⟩
+    · subst hut
+      refine ⟨ts, hts, ?_⟩
+      intro hin harm
+      rcases hthr ts' hots rfl with h0 | h0 | ⟨h1, h2⟩
+      · rw [h0] at hin; cases hin
+      · rw [h0] at harm; cases harm
+      · exact ⟨by rw [← h1]; exact hin, by rw [← h2]; exact harm⟩
+    · exact ⟨ts', hold, fun a b => ⟨a, b⟩⟩
+  -- a read of subscriber k of mailbox m0 with update g: what `hM` needs, given that the effect's side condition `hside`
+  -- is incompatible with "waits at the top"
+  have readM : ∀ (m0 k : Nat) (a : AMB) (sb : ASub) (g : AMB → ASub → ASub), s.mbs[m0]? = some a → a.subs[k]? = some sb →
+      (sb.waiting = some sb.next → sb.next = a.nSent → False) →
+      ∀ a1 a2, (some (m0, a, a.modSub k (g a)) : Option (Nat × AMB × AMB)) = some (m, a1, a2) → a2.killed = false →
+        a1.killed = false ∧ a2.nSent = a1.nSent ∧
+        ∀ (k' : Nat) (sb' : ASub), a1.subs[k']? = some sb' → sb'.waiting = some sb'.next → sb'.next = a1.nSent → a2.subs[k']? = some sb' := by
+    intro m0 k a sb g ha hs hside a1 a2 he hk2
+    simp only [Option.some.injEq, Prod.mk.injEq] at he
+    obtain ⟨rfl, rfl, rfl⟩ := he
+    refine ⟨by rw [← modSub_killed a k (g a)]; exact hk2, modSub_nSent _ _ _, ?_⟩
+    intro k' sb' hsb' hw hn
+    rw [modSub_subs]
+    split
+    · rename_i hk; subst hk
+      rw [hs] at hsb'; cases hsb'
+      exact absurd hn (fun h0 => hside hw h0)
+    · exact hsb'
+  by_cases hrel : outRel m i = true
+  · -- the instruction concerns the output side of m
+    simp only [outRel, Bool.or_eq_true, beq_iff_eq] at hrel
+    intro ts' sp a' hts' hsp ha' hin harm hk
+    by_cases hut : u = t
+    · subst hut
+      rcases hrel with (rfl | rfl) | rfl
+      · -- the gate of m opens
+        have hlenM : s'.mbs.length = s.mbs.length := by rw [(hb.step h).lenM, hb.lenM]
+        obtain ⟨a, ha⟩ : ∃ a, s.mbs[m]? = some a := by
+          have : m < s.mbs.length := by rw [← hlenM]; exact (List.getElem?_eq_some_iff.mp ha').1
+          exact ⟨_, List.getElem?_eq_getElem this⟩
+        obtain ⟨hc, rfl⟩ := step_gate hts hp hsp ha h
+        simp only [setThr_mbs] at ha'
+        rw [ha] at ha'; cases ha'
+        exact canFetch_top (hb.mb m sp _ hsp ha) hk hc
+      all_goals
+        -- a send / close by the sender itself: afterwards it is not armed (or it is in its epilogue)
+        exfalso
+        have key : ts'.inEpi = true ∨ (ts'.inEpi = ts.inEpi ∧ ts'.prog = ts.prog.tail) := by
+          cases heff
+          all_goals first
+            | (rw [setThr_thr_self s u _ ts hts] at hts'; cases hts'
+               first
+                 | exact Or.inr ⟨rfl, rfl⟩
+                 | exact Or.inl (raise_inEpi _ _ _))
+            | (rw [setThr_thr_self _ u _ ts (by simpa using hts)] at hts'; cases hts'; exact Or.inr ⟨rfl, rfl⟩)
+            | (rename_i hi; rcases hi with h0 | ⟨h0, _⟩ <;> cases h0)
+        rcases key with h0 | ⟨h1, h2⟩
+        · rw [h0] at hin; cases hin
+        · rw [h1] at hin
+          rw [hok.thr] at htu; cases htu
+          simp only [hin, Bool.false_eq_true, if_false] at hpp
+          rw [hp] at hpp
+          have := hok.out pp _ rest hpp (by first | exact Or.inl rfl | exact Or.inr rfl)
+          rw [h2, hp] at harm
+          simp only [List.tail_cons] at harm
+          rw [this] at harm; cases harm
+    · -- another thread: it cannot send into m; a `gate m` in another thread changes nothing
+      rcases hrel with (rfl | rfl) | rfl
+      · cases heff with
+        | advance =>
+          rw [setThr_thr_ne s u t _ hut] at hts'
+          simp only [setThr_mbs] at ha'
+          exact hg ts' sp a' hts' hsp ha' hin harm hk
+        | kill _ _ _ _ _ hi => rcases hi with h0 | ⟨h0, _⟩ <;> cases h0
+        | outClosed _ _ _ hi => rcases hi with h0 | h0 <;> cases h0
+        | outKilled _ _ _ hi => rcases hi with h0 | h0 <;> cases h0
+      · exact absurd (notOut (Or.inl rfl)) hut
+      · exact absurd (notOut (Or.inr rfl)) hut
+  · -- an instruction that does not concern the output side of m
+    have hrel' : outRel m i = false := by simpa using hrel
+    have harmEq : armed m ts.prog.tail = armed m ts.prog := by rw [hp, List.tail_cons, armed_cons, hrel']; simp
+    have advOK : ∀ e, ∀ ts1, some ({ ts.advance with epi := e } : TSt) = some ts1 → u = t → ts1.inEpi = true ∨ armed m ts1.prog = false ∨
+        (ts1.inEpi = ts.inEpi ∧ armed m ts1.prog = armed m ts.prog) := by
+      intro e ts1 h1 _; cases h1; exact Or.inr (Or.inr ⟨rfl, harmEq⟩)
+    have raiseOK : ∀ o e, ∀ ts1, some (ts.raise o e) = some ts1 → u = t → ts1.inEpi = true ∨ armed m ts1.prog = false ∨
+        (ts1.inEpi = ts.inEpi ∧ armed m ts1.prog = armed m ts.prog) := by
+      intro o e ts1 h1 _; cases h1; exact Or.inl (raise_inEpi _ _ _)
+    have noMb : ∀ a a', (none : Option (Nat × AMB × AMB)) = some (m, a, a') → a'.killed = false → a.killed = false ∧ a'.nSent = a.nSent ∧
+        ∀ (k : Nat) (sb : ASub), a.subs[k]? = some sb → sb.waiting = some sb.next → sb.next = a.nSent → a'.subs[k]? = some sb := by
+      intro a a' he; cases he
+    cases heff with
+    | advance => exact gen _ none (frame_thr s u _) (advOK ts.epi) noMb
+    | outClosed => exact gen _ none (frame_thr s u _) (raiseOK _ _) noMb
+    | outKilled => exact gen _ none (frame_thr s u _) (raiseOK _ _) noMb
+    | fail => exact gen _ none (frame_thr s u _) (raiseOK _ _) noMb
+    | die e =>
+      refine gen _ none (frame_thr s u _) ?_ noMb
+      intro ts1 h1 _; cases h1; exact Or.inr (Or.inl rfl)
+    | dropEpi => exact gen _ none (frame_thr s u _) (advOK []) noMb
+    | finish sv out _ =>
+      have F := frame_thr { s with outcome := some out } u ts.advance
+      exact gen (some ts.advance) none ⟨F.thr, F.mbs, (by intro m a a' he; cases he), F.lenT, F.lenM⟩ (advOK ts.epi) noMb
+    | kill _ m0 own r _ _ =>
+      cases ha : s.mbs[m0]? with
+      | none =>
+        have e := modMB_none s m0 (fun a => a.kill r) ha
+        exact gen (some ts.advance) none (by rw [e]; exact frame_thr s u _) (advOK ts.epi) noMb
+      | some a =>
+        refine gen _ _ (frame_both s u m0 _ _ a ha) (advOK ts.epi) ?_
+        intro a1 a2 he hk2
+        simp only [Option.some.injEq, Prod.mk.injEq] at he; obtain ⟨rfl, rfl, rfl⟩ := he
+        rw [kill_killed] at hk2; cases hk2
+    | sendOk m0 sp0 a _ ha _ _ _ =>
+      have hne : m0 ≠ m := by intro he; subst he; simp [outRel] at hrel'
+      refine gen _ _ (frame_both s u m0 _ _ a ha) (advOK ts.epi) ?_
+      intro a1 a2 he; simp only [Option.some.injEq, Prod.mk.injEq] at he; exact absurd he.1 hne
+    | closeOk m0 sp0 a _ ha _ _ _ =>
+      have hne : m0 ≠ m := by intro he; subst he; simp [outRel] at hrel'
+      refine gen _ _ (frame_both s u m0 _ _ a ha) (advOK ts.epi) ?_
+      intro a1 a2 he; simp only [Option.some.injEq, Prod.mk.injEq] at he; exact absurd he.1 hne
+    | readPop m0 k a sb ha hs hbuf =>
+      refine gen _ _ (frame_both s u m0 _ (fun a => a.modSub k fun sb => { sb with buffered := sb.buffered - 1 }) a ha) (advOK ts.epi) ?_
+      have hW := fun sp hsp => ((hb.mb m0 sp a hsp ha).sub k sb hs).2.2
+      refine readM m0 k a sb (fun _ sb => { sb with buffered := sb.buffered - 1 }) ha hs ?_
+      intro hw _
+      have hlt0 : m0 < net.mbs.length := by rw [← hb.lenM]; exact (List.getElem?_eq_some_iff.mp ha).1
+      have := (hW _ (List.getElem?_eq_getElem hlt0) _ hw).2
+      omega
+    | readTake m0 k a sb ha hs _ _ hlt0 =>
+      refine gen _ _ (frame_both s u m0 _ (fun a => a.modSub k fun sb =>
+        { sb with buffered := a.nSent - sb.next - 1, next := a.nSent, waiting := none }) a ha) (advOK ts.epi) ?_
+      refine readM m0 k a sb (fun a sb => { sb with buffered := a.nSent - sb.next - 1, next := a.nSent, waiting := none }) ha hs ?_
+      intro _ hn; omega
+    | readKilled m0 k a sb ha hs _ hkk =>
+      refine gen _ _ (frame_both s u m0 _ (fun a => a.modSub k fun sb => { sb with waiting := none }) a ha) (raiseOK _ _) ?_
+      intro a1 a2 he hk2
+      simp only [Option.some.injEq, Prod.mk.injEq] at he; obtain ⟨rfl, rfl, rfl⟩ := he
+      rw [modSub_killed, hkk] at hk2; cases hk2
+    | readWait m0 k a sb ha hs _ _ _ hwn =>
+      refine gen none _ (frame_mb s u m0 (fun a => a.modSub k fun sb => { sb with waiting := some sb.next }) a ha)
+        (by intro ts1 h1; cases h1) ?_
+      refine readM m0 k a sb (fun _ sb => { sb with waiting := some sb.next }) ha hs ?_
+      intro hw _; rw [hwn] at hw; cases hw
+
+theorem GateInv.init {net : Net} {t m : Nat} {th : Thread} (hok : SenderOkP net t m th) : GateInv net (Net.init net) t m := by
+  intro ts sp a hts _ _ _ harm _
+  obtain ⟨th', hth', rfl⟩ := init_thr hts
+  rw [hok.thr] at hth'; cases hth'
+  rw [hok.start] at harm; cases harm
+
+theorem reach_gate {net : Net} {s : NState} (h : Reachable net s) {t m : Nat} (hok : senderOk net t m = true) :
+    GateInv net s t m := by
+  obtain ⟨th, hp⟩ := senderOk_spec hok
+  induction h with
+  | init => exact GateInv.init hp
+  | step hr hs ih => exact ih.step (reach_inv hr).1 hp hs
 
 end Strax.NetBP
